@@ -425,6 +425,57 @@ func RunJobScenario(sc *Scenario) (vd *Verdict) {
 			}
 			r.jobs[fmt.Sprint(op.M["id"])] = op.M
 			r.ev("addJob")
+		case "triggerRun":
+			// the job's own cron trigger fires (pipeline and transform objects live across such runs)
+			if !r.H.RunJobByTrigger(2 * time.Hour) {
+				fail(viol(sc.Property, "job-run", "job-hangs", "job still running after 2h of simulated time"), i)
+				return
+			}
+			r.Stats["job_runs"]++
+			r.Stats["runs_by_trigger"]++
+			r.ev("triggerRun at %v", time.Since(r.Start).Round(time.Minute))
+		case "checkPrefixAnswers":
+			// what the transform of a long-lived job was told when it asked for the prefix of a namespace: the entities it
+			// wrote carry the answer. Entities written while the namespace was unknown may carry an empty answer; entities
+			// written after the hub handed out a prefix must carry that prefix
+			ds := r.H.Dataset(op.DS)
+			want := ""
+			for p, e := range r.H.Store.NamespaceManager.GetPrefixToExpansionMap() {
+				if e == op.S {
+					want = p
+				}
+			}
+			if ds == nil || want == "" {
+				fail(viol(sc.Property, "harness", "invalid", "dataset %s or namespace %s missing", op.DS, op.S), i)
+				return
+			}
+			res, err := ds.GetEntities("", 0)
+			if err != nil {
+				fail(viol(sc.Property, "harness", "invalid", "%v", err), i)
+				return
+			}
+			after := map[string]bool{}
+			for _, x := range op.A {
+				after[markerToFull(fmt.Sprint(x))] = true
+			}
+			checked := 0
+			for _, e := range res.Entities {
+				c := r.H.Canon(e)
+				if !after[c.ID] {
+					continue
+				}
+				checked++
+				if got := strings.Trim(fmt.Sprint(c.Props[ExS+"pfx"]), "\""); got != want {
+					fail(viol("C13", "namespaces", "transform-told-another-prefix", "a client introduced namespace %s (prefix %s); the transform of a job that had asked for it before, asked again when it transformed %s and was told %q", op.S, want, shortURI(c.ID), got), i)
+					return
+				}
+			}
+			if checked == 0 {
+				fail(viol("C13", "namespaces", "transformed-entity-missing", "none of the entities %v reached the sink", op.A), i)
+				return
+			}
+			r.Stats["prefix_answers_checked"] += int64(checked)
+			r.ev("prefix answers %d for %s", checked, op.S)
 		case "runFix":
 			if v := r.runFixOp(op, i); v != nil {
 				fail(v, i)
